@@ -3,6 +3,7 @@ package main
 // C04, C08, C13 - the thrift package against spec/ThriftWire.tla.
 
 import (
+	"bufio"
 	"bytes"
 	"encoding/binary"
 	"encoding/hex"
@@ -13,6 +14,7 @@ import (
 	"math"
 	"reflect"
 	"runtime"
+	"strconv"
 	"strings"
 	"sync"
 
@@ -401,7 +403,102 @@ func c13Messages(c *Ctx, cases []msgCase) {
 // c13Doubles: doubles bit for bit - both zeros, infinities, a NaN with a payload, the smallest and the largest
 // finite values.  Under the binary protocol the bytes are the big-endian IEEE 754 bits; under every protocol what was
 // written is read back with the same bits, on its own and as a list element, map value and field.
+// onlyRead hides every method of a reader but Read (no ReadByte, no WriteTo) and hands out at most n bytes per call
+type onlyRead struct {
+	r io.Reader
+	n int
+}
+
+func (o onlyRead) Read(p []byte) (int, error) {
+	if o.n > 0 && len(p) > o.n {
+		p = p[:o.n]
+	}
+	return o.r.Read(p)
+}
+
+// c13Sources: what the Readers make of an encoding does not depend on the kind of io.Reader it comes from - a
+// bytes.Reader, a reader with nothing but Read that hands out 1, 2, 7 or all available bytes per call, a LimitReader,
+// a bufio.Reader
+func c13Sources(c *Ctx) {
+	type inner struct {
+		S string `thrift:"1"`
+		N int64  `thrift:"2"`
+	}
+	type all struct {
+		A  int16            `thrift:"1"`
+		S  string           `thrift:"2"`
+		L  []int64          `thrift:"3"`
+		M  map[string]int32 `thrift:"4"`
+		D  float64          `thrift:"5"`
+		B  bool             `thrift:"6"`
+		I  inner            `thrift:"40"`
+		LS []string         `thrift:"300"`
+		Bs []byte           `thrift:"301"`
+		I8 int8             `thrift:"302"`
+	}
+	in := all{A: -300, S: "héllo", L: []int64{1, -1, 1 << 40, 0, 5, 6, 7, 8, 9, 10, 11, 12, 13, 14, 15, 16, 17}, M: map[string]int32{"k": 70000}, D: 0.1, B: true,
+		I: inner{S: strings.Repeat("s", 200), N: -5}, LS: []string{"a", "", "ccc"}, Bs: bytes.Repeat([]byte{7}, 5000), I8: -2}
+	for _, pn := range []string{"binary", "binary-nonstrict", "compact"} {
+		p := protoOf(pn)
+		b, err := thrift.Marshal(p, in)
+		if err != nil {
+			c.SpecError("C13", "cannot encode", err.Error())
+			return
+		}
+		sources := map[string]func() io.Reader{
+			"bytes.Reader":       func() io.Reader { return bytes.NewReader(b) },
+			"Read only, all":     func() io.Reader { return onlyRead{bytes.NewReader(b), 0} },
+			"Read only, 1 byte":  func() io.Reader { return onlyRead{bytes.NewReader(b), 1} },
+			"Read only, 2 bytes": func() io.Reader { return onlyRead{bytes.NewReader(b), 2} },
+			"Read only, 7 bytes": func() io.Reader { return onlyRead{bytes.NewReader(b), 7} },
+			"Read only, 4096":    func() io.Reader { return onlyRead{bytes.NewReader(b), 4096} },
+			"io.LimitReader":     func() io.Reader { return io.LimitReader(bytes.NewReader(b), int64(len(b))) },
+			"bufio.Reader(16)":   func() io.Reader { return bufio.NewReaderSize(onlyRead{bytes.NewReader(b), 3}, 16) },
+			"strings.Reader":     func() io.Reader { return strings.NewReader(string(b)) },
+		}
+		for _, name := range sortedKeys(sources) {
+			k := thriftCase{Proto: pn, What: "source: " + name}
+			var out all
+			var derr error
+			c.Case()
+			c.Eval(1)
+			if pan := protect(func() { derr = thrift.NewDecoder(p.NewReader(sources[name]())).Decode(&out) }); pan != "" || derr != nil || !reflect.DeepEqual(in, out) {
+				c.Diverge("C13", "Decoder.Decode(source: an io.Reader of another kind)["+pn+"]", "the value that was encoded", fmt.Sprintf("err=%v %s source=%s", derr, pan, name), "", k)
+			}
+			// the Reader methods one after the other on a hand-laid sequence: string, i32, double, bytes, i64
+			var w bytes.Buffer
+			wr := p.NewWriter(&w)
+			wr.WriteString("abc")
+			wr.WriteInt32(300)
+			wr.WriteFloat64(1.5)
+			wr.WriteBytes([]byte{1, 2, 3, 4})
+			wr.WriteInt64(-70000)
+			wr.WriteString("z")
+			seq := w.Bytes()
+			var src io.Reader = bytes.NewReader(seq)
+			if strings.HasPrefix(name, "Read only") {
+				src = onlyRead{bytes.NewReader(seq), map[string]int{"Read only, all": 0, "Read only, 1 byte": 1, "Read only, 2 bytes": 2, "Read only, 7 bytes": 7, "Read only, 4096": 4096}[name]}
+			} else if name == "io.LimitReader" {
+				src = io.LimitReader(bytes.NewReader(seq), int64(len(seq)))
+			}
+			rd := p.NewReader(src)
+			s1, e1 := rd.ReadString()
+			n2, e2 := rd.ReadInt32()
+			f3, e3 := rd.ReadFloat64()
+			b4, e4 := rd.ReadBytes()
+			n5, e5 := rd.ReadInt64()
+			s6, e6 := rd.ReadString()
+			c.Eval(1)
+			if e1 != nil || e2 != nil || e3 != nil || e4 != nil || e5 != nil || e6 != nil || s1 != "abc" || n2 != 300 || f3 != 1.5 || !bytes.Equal(b4, []byte{1, 2, 3, 4}) || n5 != -70000 || s6 != "z" {
+				c.Diverge("C13", "Reader methods(source: an io.Reader of another kind)["+pn+"]", `"abc" 300 1.5 01020304 -70000 "z"`,
+					fmt.Sprintf("%q %d %v %x %d %q errs=%v %v %v %v %v %v source=%s", s1, n2, f3, b4, n5, s6, e1, e2, e3, e4, e5, e6, name), "", k)
+			}
+		}
+	}
+}
+
 func c13Doubles(c *Ctx) {
+	c13Sources(c)
 	vals := []float64{0, math.Copysign(0, -1), 1, -1, math.Inf(1), math.Inf(-1), math.Float64frombits(0x7ff8000000000001), math.SmallestNonzeroFloat64,
 		-math.SmallestNonzeroFloat64, math.MaxFloat64, -math.MaxFloat64, 0.1, 1e-310}
 	for _, pn := range []string{"binary", "binary-nonstrict", "compact"} {
@@ -451,6 +548,10 @@ func c13Replay(c *Ctx, raw stdjson.RawMessage) {
 	// stored want/asis hex strings provide
 	var k thriftCase
 	if stdjson.Unmarshal(raw, &k) != nil {
+		return
+	}
+	if strings.HasPrefix(k.What, "source: ") {
+		c13Sources(c)
 		return
 	}
 	if strings.HasPrefix(k.What, "double bits=") {
@@ -627,7 +728,48 @@ type RecTree struct {
 	N        int32              `thrift:"5"`
 }
 
+// c04LongLists: lists, sets and maps around and beyond the number of elements the decoders reserve room for (1024)
+func c04LongLists(c *Ctx) {
+	type holder struct {
+		A int32            `thrift:"1"`
+		L []int32          `thrift:"2"`
+		S []string         `thrift:"3"`
+		M map[int32]string `thrift:"4"`
+		T []struct {
+			X int8 `thrift:"1"`
+		} `thrift:"5"`
+		Z string `thrift:"6"`
+	}
+	for _, n := range []int{1023, 1024, 1025, 2048, 2049, 3000} {
+		in := holder{A: 1, Z: "z", M: map[int32]string{}}
+		for i := 0; i < n; i++ {
+			in.L = append(in.L, int32(i*7))
+			in.S = append(in.S, strconv.Itoa(i))
+			in.M[int32(i)] = "v"
+			in.T = append(in.T, struct {
+				X int8 `thrift:"1"`
+			}{int8(i)})
+		}
+		for _, pn := range []string{"binary", "binary-nonstrict", "compact"} {
+			p := protoOf(pn)
+			k := thriftCase{Proto: pn, What: fmt.Sprintf("long lists %d", n)}
+			c.Case()
+			c.Eval(1)
+			b, err := thrift.Marshal(p, in)
+			var out holder
+			if err == nil {
+				err = thrift.Unmarshal(p, b, &out)
+			}
+			if err != nil || !reflect.DeepEqual(in, out) {
+				c.Diverge("C04", "thrift.Unmarshal(Marshal(v))(collections of more than 1024 elements)["+pn+"]", fmt.Sprintf("%d elements each", n),
+					fmt.Sprintf("err=%v lengths %d %d %d %d", err, len(out.L), len(out.S), len(out.M), len(out.T)), "", k)
+			}
+		}
+	}
+}
+
 func c04Recursive(c *Ctx) {
+	c04LongLists(c)
 	leaf := func(n string, v int32) RecTree { return RecTree{Name: n, N: v} }
 	vals := []RecTree{
 		{Name: "root", Children: map[string]RecTree{"a": {Name: "a", Children: map[string]RecTree{"x": leaf("x", 1), "y": leaf("y", 2)}}, "b": leaf("b", 3)}},
@@ -775,7 +917,7 @@ func sameEncoding(a, b []byte, permuted bool) bool {
 func c04Replay(c *Ctx, raw stdjson.RawMessage) {
 	var k thriftCase
 	if stdjson.Unmarshal(raw, &k) == nil {
-		if strings.HasPrefix(k.What, "embedded structs") || strings.HasPrefix(k.What, "recursive types") {
+		if strings.HasPrefix(k.What, "embedded structs") || strings.HasPrefix(k.What, "recursive types") || strings.HasPrefix(k.What, "long lists") {
 			c04Embedded(c)
 			return
 		}
@@ -872,6 +1014,18 @@ func c08Run(c *Ctx, k thriftCase) {
 		got, derr, pan := decode(b, false)
 		if pan != "" || derr != nil || got != want {
 			fail("thrift.Unmarshal(with unknown fields)", want, fmt.Sprintf("%s err=%v %s bytes=%x", got, derr, pan, b))
+		}
+		// ... and cut short anywhere (also right behind a complete unknown field): an unexpected-EOF class error
+		for i := 1; i < len(b); i++ {
+			if len(b) > 600 && i > 40 && i < len(b)-40 && i%37 != 0 {
+				continue
+			}
+			c.Eval(1)
+			_, perr, ppan := decode(b[:i], false)
+			if ppan != "" || perr == nil || !isUnexpectedEOF(perr) {
+				fail("thrift.Unmarshal(with unknown fields, cut short)", "unexpected-EOF class error", fmt.Sprintf("err=%v %s prefix %d of %x", perr, ppan, i, b))
+				break
+			}
 		}
 	case "prefixes":
 		b, err := thrift.Marshal(p, l.structValue(k.Layout, k.Vals).Interface())
@@ -1349,7 +1503,45 @@ func convertAlt(dst, src reflect.Value, n *int) {
 // c08ForeignBools: other writers announce the booleans of a list, set or map with the type code TRUE (1) where this
 // package writes BOOL (2); the decoder takes both for a declared field, and both are skipped alike in a field the
 // target does not declare - alone, in a struct, in a list of lists
+// c08IdZero: a field with id 0 - which no target can declare - among the others, complete and cut short at every
+// offset (the readers keep track of the last id they saw)
+func c08IdZero(c *Ctx) {
+	type tgt struct {
+		A int8 `thrift:"1"`
+		B int8 `thrift:"2"`
+	}
+	for _, in := range []struct{ proto, hexs string }{
+		{"binary", "030001050300000703000209"}, {"binary", "030000070300010503000209"}, {"binary", "030001050300020903000007"},
+		{"compact", "13050300072309"}, {"compact", "03000713051309"}, {"compact", "13051309030007"},
+	} {
+		// (the end of a struct as the package itself writes it)
+		stop, _ := thrift.Marshal(protoOf(in.proto), struct{}{})
+		in.hexs += hex.EncodeToString(stop)
+		b, _ := hex.DecodeString(in.hexs)
+		p := protoOf(in.proto)
+		k := thriftCase{Proto: in.proto, What: "field id 0", Bytes: in.hexs}
+		var out tgt
+		c.Case()
+		c.Eval(1)
+		if err := thrift.Unmarshal(p, b, &out); err != nil || out.A != 5 || out.B != 9 {
+			c.Diverge("C08", "thrift.Unmarshal(unknown field with id 0)["+in.proto+"]", "{A:5 B:9} nil error", fmt.Sprintf("%+v err=%v", out, err), "", k)
+			continue
+		}
+		for i := 0; i < len(b); i++ {
+			var o2 tgt
+			var err error
+			c.Eval(1)
+			if pan := protect(func() { err = thrift.Unmarshal(p, b[:i], &o2) }); pan != "" || err == nil || (i == 0) != (err == io.EOF) || (i > 0 && !isUnexpectedEOF(err)) {
+				c.Diverge("C08", "thrift.Unmarshal(unknown field with id 0, cut short)["+in.proto+"]", "io.EOF for the empty input, unexpected-EOF class behind it",
+					fmt.Sprintf("prefix %d: err=%v %s", i, err, pan), "", k)
+				break
+			}
+		}
+	}
+}
+
 func c08ForeignBools(c *Ctx) {
+	c08IdZero(c)
 	type full struct {
 		A int32  `thrift:"1"`
 		L []bool `thrift:"9"`
@@ -1475,7 +1667,7 @@ func c08Replay(c *Ctx, raw stdjson.RawMessage) {
 			c08Alloc(c, k.Alloc)
 			return
 		}
-		if strings.HasPrefix(k.What, "foreign bools") {
+		if strings.HasPrefix(k.What, "foreign bools") || k.What == "field id 0" {
 			c08ForeignBools(c)
 			return
 		}
